@@ -58,13 +58,19 @@ def main():
                 lam = np.arange(1.0, n + 1) * rng.choice([-1, 1], n)
                 M = S @ np.diag(lam) @ np.linalg.inv(S)
                 cases.append((f"n={n} start in a 3-dimensional invariant subspace", M, cplx, S[:, :3] @ (rng.standard_normal(3) + 1.5)))
+    for n in (6, 17):
+        # a real operator with a COMPLEX start vector, and a complex operator with a real one: the basis lives in the promoted dtype
+        cases.append((f"n={n} real operator with a complex start vector", rnd(n, n) + n * np.eye(n), "cstart", None))
+        cases.append((f"n={n} complex operator with a real start vector", rnd(n, n, cplx=True) + n * np.eye(n), "rstart", None))
     for name, M, cplx, v0 in cases:
         n = M.shape[0]
+        cstart, rstart = cplx == "cstart", cplx == "rstart"
+        cplx = bool(cplx) and not cstart
         M = M.astype(np.complex128 if cplx else np.float64)
         scale = 10.0 ** rng.integers(-3, 4)
         M = M * scale
-        v = v0 if v0 is not None else rnd(n, cplx=cplx)
-        v = v.astype(M.dtype) if cplx else np.real(v).astype(np.float64)
+        v = v0 if v0 is not None else rnd(n, cplx=(cplx and not rstart) or cstart)
+        v = v.astype(np.complex128) if ((cplx and not rstart) or cstart) else np.real(v).astype(np.float64)
         ref = None
         # breakdown is detected by a relative threshold: keep it well above rounding noise for starts in an invariant subspace
         tol = 1e-10 if v0 is None else 1e-7
